@@ -37,6 +37,10 @@ def main():
     mon.register_callback(3, mon.events.LINE, cb)
     for co in module_code_objects(F):
         mon.set_local_events(3, co, mon.events.LINE)
+    if scen.endswith('_nostdin'):
+        # a daemon: standard input is closed, so the lock file lands on descriptor 0
+        os.close(0)
+        scen = scen[:-len('_nostdin')]
     base[0] = len(os.listdir('/proc/self/fd'))
     l = F.FileLock(path, reentrant=scen in ('nested', 'nested_force'))
     ref[0] = l
